@@ -53,6 +53,37 @@ theorem exactly_one_bin (e : List Rat) (he : e.Pairwise (· ≤ ·)) (f : Freq) 
   · rw [if_neg hr] at h ⊢
     exact_mod_cast h
 
+/-- **Out of range = no bin at all; in range = the left-closed bin, first edge included.**  A sample below the first
+    edge (negative included), at/above the last edge, or NaN gets NO bin index — not the last bin (no wrap-around of
+    `digitize − 1 = −1`), not the first (no clamp) — and lies in no bin interval; every other sample gets exactly
+    the index `b` with `e[b] ≤ f < e[b+1]`.  A sample exactly on the first edge of a non-empty first bin is in bin 0. -/
+theorem out_of_range_no_bin (e : List Rat) (he : e.Pairwise (· ≤ ·)) (f : Freq) :
+    (inRange e f = false → binIdx e f = none ∧ ∀ b, inBin e b f = false) ∧
+    (inRange e f = true → ∃ b, binIdx e f = some b ∧ b < e.length - 1 ∧ inBin e b f = true) ∧
+    (∀ b, binIdx e f = some b ↔ inBin e b f = true) ∧
+    (∀ (h : 1 < e.length), e[0] < e[1] → binIdx e (some e[0]) = some 0) := by
+  have hiff := binIdx_eq_some_iff e he f
+  have hsome := binIdx_isSome_iff e he f
+  refine ⟨fun hr => ?_, fun hr => ?_, hiff, fun h hlt => ?_⟩
+  · rw [hr] at hsome
+    have hn : binIdx e f = none := by
+      cases hb : binIdx e f with
+      | none => rfl
+      | some b => rw [hb] at hsome; simp at hsome
+    refine ⟨hn, fun b => ?_⟩
+    cases hib : inBin e b f with
+    | false => rfl
+    | true => rw [(hiff b).mpr hib] at hn; cases hn
+  · rw [hr] at hsome
+    cases hb : binIdx e f with
+    | none => rw [hb] at hsome; simp at hsome
+    | some b => exact ⟨b, rfl, binIdx_lt hb, (hiff b).mp hb⟩
+  · rw [binIdx_eq_some_iff e he (some e[0]) 0]
+    have h0 : e[0]? = some e[0] := List.getElem?_eq_getElem (by omega)
+    have h1 : e[0 + 1]? = some e[1] := List.getElem?_eq_getElem h
+    simp only [inBin, h0, h1]
+    simp [hlt, Rat.le_refl]
+
 /-- Dense spectrum = SPEC: cell `[b][t]` is `Σ_j w(a[t][j])·[e[b] ≤ f[t][j] < e[b+1]]`. In particular a
     sample below the first edge or at/above the last contributes to no cell. -/
 theorem hht_dense_eq_spec (e : List Rat) (he : e.Pairwise (· ≤ ·)) (energy : Bool) (F : List (List Freq))
@@ -103,6 +134,29 @@ theorem hht_sparse_eq_dense (e : List Rat) (energy : Bool) (F : List (List Freq)
     intro x hx
     have := hht_sparse_in_shape e energy F A x hx
     simp [this]
+
+/-- … hence an array whose samples are ALL out of range (below the first edge, at/above the last, negative, NaN)
+    yields an empty sparse form and an all-zero dense spectrum: such samples add nothing to ANY bin. -/
+theorem out_of_range_contributes_nowhere (e : List Rat) (he : e.Pairwise (· ≤ ·)) (energy : Bool) (F : List (List Freq))
+    (A : List (List Rat)) (hall : ∀ r ∈ F, ∀ f ∈ r, inRange e f = false) :
+    hhtCoo e energy F A = [] ∧ hhtDense e energy F A = zerosMat (e.length - 1) F.length := by
+  have hlen : (hhtCoo e energy F A).length = 0 := by
+    rw [hht_sparse_one_per_sample e he energy F A]
+    have key : ∀ l : List Nat, (∀ n ∈ l, n = 0) → l.sum = 0 := by
+      intro l
+      induction l with
+      | nil => intro _; rfl
+      | cons a t ih => intro h; simp [h a (by simp), ih (fun n hn => h n (by simp [hn]))]
+    apply key
+    intro n hn
+    obtain ⟨r, hr, rfl⟩ := List.mem_map.mp hn
+    rw [List.countP_eq_zero]
+    intro fa hfa
+    have h1 : fa.1 ∈ r.1 := (List.of_mem_zip hfa).1
+    have h2 : r.1 ∈ F := (List.of_mem_zip hr).1
+    simp [hall r.1 h2 fa.1 h1]
+  have hnil : hhtCoo e energy F A = [] := List.eq_nil_of_length_eq_zero hlen
+  exact ⟨hnil, by unfold hhtDense; rw [hnil]; rfl⟩
 
 /-- 1-D spectrum = SPEC: cell `[b][j]` is `Σ_t w(a[t][j])·[e[b] ≤ f[t][j] < e[b+1]]`. -/
 theorem hht1d_eq_spec (e : List Rat) (he : e.Pairwise (· ≤ ·)) (energy : Bool) (M : Nat)
@@ -205,6 +259,14 @@ example : hhtDense [1, 2, 4] true
 example : hht1d [1, 2, 4] true 2
       [[some (1/2), some 1], [some 3, some 4], [some (-1), none], [some 2, some (3/2)]]
       [[1, 2], [3, 4], [5, 6], [7, 8]] = [[0, 68], [58, 0]] := by decide +kernel
+-- all samples out of range (below, on the last edge, above, negative, NaN): nothing anywhere — not in the last bin either
+example : hhtDense [1, 2, 4] false [[some (1/2), some 4], [some (-3), none], [some 5, some 0]] [[1, 2], [3, 4], [5, 6]]
+    = [[0, 0, 0], [0, 0, 0]] := by decide +kernel
+example : ∀ r ∈ [[some (1/2), some 4], [some (-3), none], [some 5, some (0 : Rat)]], ∀ f ∈ r, inRange [1, 2, 4] f = false := by
+  decide +kernel
+-- a sample exactly on the first edge is in the first bin
+example : binIdx [1, 2, 4] (some 1) = some 0 ∧ binIdx [1, 2, 4] (some (1/2)) = none ∧ binIdx [1, 2, 4] (some 4) = none := by
+  decide +kernel
 example : inRange [1, 2, 4] (some 1) = true ∧ inRange [1, 2, 4] (some 4) = false ∧
     inRange [1, 2, 4] (some (1/2)) = false ∧ inRange [1, 2, 4] none = false := by decide +kernel
 
